@@ -185,7 +185,7 @@ def check_generate_weighted(ctx, rng, count):
     for _ in range(count):
         n = rng.randint(1, 7)
         ws = [rng.randint(0, rng.choice([0, 2, 4])) for _ in range(n)]
-        basis = rng.choice(['XAIG', 'AIG'])
+        basis = rng.choice(['XAIG', 'AIG', 'AIG', 'aig', 'Aig', 'xaig'])
         for gen_fn, add_fn, nm in ((S.generate_sum_weighted_bits_efficient, S.add_sum_n_weighted_bits, 'efficient'),
                                    (S.generate_sum_weighted_bits_naive, S.add_sum_n_weighted_bits_naive, 'naive')):
             ctx.case(json.dumps(['generate_weighted', nm, ws, basis]))
@@ -202,6 +202,13 @@ def check_generate_weighted(ctx, rng, count):
             if list(c.inputs) != list(d.inputs) or c.get_truth_table() != d.get_truth_table():
                 ctx.violation('sum.generate_differs', f'generate_sum_weighted_bits_{nm}({ws}, {basis}) differs from add_ on a bare circuit', input={'weights': ws, 'basis': basis})
                 continue
+            # the requested basis, however it is spelled
+            if basis.upper() == 'AIG':
+                bad = sorted({g.gate_type.name for g in c.gates.values()} & {'XOR', 'NXOR'})
+                if bad:
+                    ctx.violation('sum.generate_basis', f'generate_sum_weighted_bits_{nm}({ws}, basis={basis!r}) contains {bad} gates',
+                                  input={'weights': ws, 'basis': basis})
+                    continue
             # and the value, using the levels the add_ function reported
             tt = c.get_truth_table()
             for row in range(1 << n):
